@@ -160,6 +160,17 @@ func init() {
 			},
 		},
 		propCheck{
+			ID: "C18", Level: "exploration",
+			Rule: "one evaluation = one simulated history over a generated foreign-key graph (chain of 2-4 tables, diamond, self reference with optional child table, or a 'deep' chain whose unique column k references the k of the level above) with ON DELETE / ON UPDATE actions drawn from RESTRICT, NO ACTION, CASCADE, SET NULL: tables are populated top-down, then 6-28 (thorough: -48) statements by two sessions: multi-row INSERT with valid, NULL and dangling references and planted duplicates; UPDATE re-pointing a foreign key column, moving the referenced unique column of many rows, changing a referenced primary key; DELETE by id, id list, range, or all; ALTER TABLE DROP FOREIGN KEY and later ADD it again over the data present; in half of the runs a storage error is injected at a drawn edit call (1-5) of a third of the statements, cascades included. After every statement: all tables equal a reference model that applies the actions row by row (evaluated under both row orders and both orders of a table's foreign keys; when those disagree any of them is accepted), every non-NULL child value has a parent (computed from the rows read back), equality reads through every foreign-key index agree with the table, the error kind is the model's, a failed statement (natural or injected) leaves every table unchanged; non-trivial = the graph has a foreign key; distinct = distinct hash of the statement-kind/outcome sequence",
+			Real: []string{"analyzer applyForeignKeys, plan.ForeignKeyHandler / ForeignKeyEditor (cascade, set null, restrict chains)", "memory foreign key collection, table editors and their secondary indexes", "ALTER TABLE ADD / DROP FOREIGN KEY execution and validation of existing data"},
+			Stub: []string{"session scheduling at statement granularity (two sessions alternate)", "storage error source (verifhook.Fault at memory table editor calls)"},
+			Assumptions: []string{"MySQL (InnoDB) semantics: RESTRICT and NO ACTION are both checked immediately, row by row", "a row that references itself, ON UPDATE CASCADE / SET NULL on a self reference or on a table reachable over two paths are not generated (MySQL special-cases them)", "DELETE without WHERE on a table referenced only by itself may empty the table at once (the engine turns it into a truncation; no orphan can result) or fail as MySQL's row-by-row check would", "when a row is wrong in two ways (duplicate key and missing parent) either error is accepted", "foreign_key_checks stays on; composite keys and REPLACE / ON DUPLICATE KEY UPDATE on parents are not generated"},
+			Subs: []subCheck{
+				{ID: "C18", World: "sqlsim", Quick: 4000, Thorough: 300000, QuickCap: 90, ThoroughCap: 1500, GC: "100",
+					Probes: []string{"cascade-delete", "cascade-update", "set-null-on-delete", "set-null-on-update", "multi-level", "failure-inside-cascade", "order-dependent-outcome", "fk-re-added", "fk-add-refused-over-orphans"}},
+			},
+		},
+		propCheck{
 			ID: "C39", Level: "exploration",
 			Rule: "one evaluation = one simulated history of 4-30 administrative statements by root (CREATE USER / ROLE, GRANT and REVOKE of 10 privilege kinds or ALL at the global, database, table and routine level, to users and roles, GRANT / REVOKE role, DROP USER / ROLE) over 3 users and 2 roles; after every statement every user's allow/deny outcome over 8 effect-free probe statements (SELECT/INSERT/UPDATE/DELETE on three tables, CALL) is taken from a long-lived session (privilege cache) and from a fresh session and compared with a privilege model (own grants united with the grants of every granted role, global or database or object level); in 2/3 of the steps one user also runs one statement with an effect (INSERT, UPDATE, DELETE, INSERT..SELECT, REPLACE, CREATE/DROP/ALTER TABLE, CREATE INDEX, CREATE USER): allowed iff the model holds every required privilege, allowed => the state changed, denied => the state read by root is unchanged; distinct = distinct hash of the statement-kind/outcome sequence",
 			Real: []string{"planbuilder authorization (HandleAuth), plan.Grant / Revoke / CreateUser / DropUser / roles execution", "mysql_db.MySQLDb, PrivilegeSet, role edges, per-session privilege cache (update counter)", "engine + memory backend"},
